@@ -46,7 +46,8 @@ def tasks(tier, prop='C03'):
     for allow in range(len(ALLOW_LISTS)):
         for sarif in (False, True):
             for codes in itertools.product(range(len(CODES)), repeat=nrep):
-                if tier == 'quick' and sorted(codes) != list(codes): continue
+                # the order in which equal reports are offered is C17's subject (equal-code tasks there); here codes are taken in ascending order
+                if sorted(codes) != list(codes): continue
                 ts.append({'kind': 'main', 'allow': allow, 'sarif': sarif, 'codes': list(codes), 'prop': prop})
     for k in RUNNER_SHAPES(tier): ts.append(dict(k, prop=prop))
     return ts
@@ -65,10 +66,12 @@ class Rec:
     def __init__(self): self.emitted = []; self.messages = []; self.sarif = None; self.sarif_calls = 0; self.offered = []
 
 
-def mk_report(ir, idx, cat_term, code, nids, id_terms):
+def mk_report(ir, idx, cat_term, code, nids, id_terms, rng=None):
     msg = StrV.of('r%d' % idx)
+    # codespan Label<FileID> { style, file_id, range, message }: positional fields (external crate, not in the struct table)
+    lab = lambda i: Struct('Label', [Opaque('style'), id_terms[i], Struct('ops::Range', [rng[0], rng[1]]) if rng else Opaque('range'), StrV.of('l%d' % i)])
     return ir.S('Report', category=Enum('MessageCategory', cat_term), message=msg,
-                primary_file_ids=VecV(list(id_terms[:nids])), primary=VecV([Opaque('label', i) for i in range(nids)]),
+                primary_file_ids=VecV(list(id_terms[:nids])), primary=VecV([lab(i) for i in range(nids)]),
                 secondary=VecV([]), notes=VecV([]), code=Enum('ReportCode', code))
 
 
@@ -90,11 +93,12 @@ def run_task(task):
     nids = [z3.Int('nids%d' % i) for i in range(n)]
     fid = [[z3.Int('fid%d_%d' % (i, j)) for j in range(2)] for i in range(n)]
     user = [z3.Bool('user%d' % i) for i in range(NFILES)]
-    h.inputs = dict([('level', level), ('verbose', verbose), ('serialize_ok', ser_ok)] + [('cat%d' % i, c) for i, c in enumerate(cats)] +
+    rlo = [z3.Int('range%d' % i) for i in range(n)]          # byte offset of the primary labels of report i (two findings may share it)
+    h.inputs = dict([('range%d' % i, r) for i, r in enumerate(rlo)] + [('level', level), ('verbose', verbose), ('serialize_ok', ser_ok)] + [('cat%d' % i, c) for i, c in enumerate(cats)] +
                     [('nids%d' % i, c) for i, c in enumerate(nids)] + [('fid%d_%d' % (i, j), fid[i][j]) for i in range(n) for j in range(2)] +
                     [('user%d' % i, u) for i, u in enumerate(user)])
     base = [level >= lo, level <= hi] + [z3.And(c >= lo, c <= hi) for c in cats] + [z3.And(k >= 0, k <= 2) for k in nids]
-    base += [z3.And(f >= 0, f < NFILES) for fs in fid for f in fs]
+    base += [z3.And(f >= 0, f < NFILES) for fs in fid for f in fs] + [z3.And(r >= 0, r <= 1) for r in rlo]
     allow = ALLOW_LISTS[task['allow']]
     rec_holder = {}
 
@@ -118,7 +122,7 @@ def run_task(task):
 
     def with_files(ex, a, m):
         ks = [ex.concretize(k, 0, 2) for k in nids]
-        reps = [mk_report(ir, i, cats[i], codes[i], ks[i], fid[i]) for i in range(n)]
+        reps = [mk_report(ir, i, cats[i], codes[i], ks[i], fid[i], (rlo[i], rlo[i] + 1)) for i in range(n)]
         ex.notes['reports'] = reps; ex.notes['nids'] = ks
         batch = reps[:1]
         ex.notes['rec'].offered += batch
